@@ -8,7 +8,8 @@ import Midgard.Model.Purity
         → `err <cachelen>` | `ok <hex(sys)=hex(t);…,…|-> <cachelen>`
   c16 cover <hex(cell id)>                      → memo | registry | sink | none
   c16 effects                                   → number of effect cells, number covered
-  c16 reg <n1,n2,…>                             `plugins.get` of the names in order from an empty registry
+  c16 reg <q1,q2,…>                             questions `g:name` (get) / `l:name` (load) / `e:name` (exists) in order from
+        an empty registry
         → `<found|missing>,… keys=<sorted registered names>`
 -/
 namespace Driver.C16
@@ -50,10 +51,17 @@ def insertSorted (x : String) : List String → List String
 
 def sortStrings (l : List String) : List String := l.foldr insertSorted []
 
+/-- one question: `g:name` (get), `l:name` (load), `e:name` (exists); a bare name is a `get`.  All three
+answer "found" iff the plug-in is registered afterwards and leave the same registry. -/
+def regStep (reg : List (String × String)) (q : String) : Bool × List (String × String) :=
+  let n := if q.startsWith "g:" || q.startsWith "l:" || q.startsWith "e:" then (q.drop 2).toString else q
+  if q.startsWith "e:" then regExists defn closureOf reg n
+  else let r := regGet defn closureOf reg n; (r.1.isSome, r.2)
+
 def regRun (names : List String) : List Bool × List (String × String) :=
-  names.foldl (fun (acc : List Bool × List (String × String)) n =>
-    let r := regGet defn closureOf acc.2 n
-    (acc.1 ++ [r.1.isSome], r.2)) ([], [])
+  names.foldl (fun (acc : List Bool × List (String × String)) q =>
+    let r := regStep acc.2 q
+    (acc.1 ++ [r.1], r.2)) ([], [])
 
 def handle : List String → Option String
   | ["c16", "obstypes", m, pre, lines] => do
